@@ -457,7 +457,7 @@ Lemma lex_unknown_command fuel e c r :
 Proof.
   intros H32 H59 H. cbn [lex skip_blank].
   destruct (c =? 32) eqn:E32; [lia|]. destruct (c =? 59) eqn:E59; [lia|].
-  unfold is_command_char in H.
+  unfold is_command_char in H. unfold lex_cmd.
   destruct (upper c =? 88) eqn:E1; [discriminate|]. destruct (upper c =? 78) eqn:E2; [discriminate|].
   destruct (upper c =? 76) eqn:E3; [discriminate|]. destruct (upper c =? 84) eqn:E4; [discriminate|].
   destruct (upper c =? 79) eqn:E5; [discriminate|]. destruct (upper c =? 62) eqn:E6; [discriminate|].
